@@ -8,6 +8,7 @@ import json, os, time, hashlib, sys, traceback
 
 VERIF = os.path.dirname(os.path.dirname(os.path.abspath(__file__)))
 KNOWN_FILE = os.path.join(VERIF, 'known_findings.json')
+NO_EVIDENCE = False   # scratch runs (self-test, seeds): do not touch /verif/evidence
 
 
 class AnalysisError(Exception):
@@ -109,6 +110,9 @@ def finish(ctx, only=None):
         errors.append('undecided: %s %s %s: %s' % (i.rule, i.function, i.construct, i.detail))
 
     vdir = os.path.join(VERIF, 'evidence', 'violations')
+    if NO_EVIDENCE:
+        import tempfile
+        vdir = os.path.join(tempfile.gettempdir(), 'svtstatic-violations')
     code = 0
     seen = set()
     for i in kn_viol:
@@ -134,7 +138,7 @@ def finish(ctx, only=None):
         print('ANALYSIS-ERROR property=%s %s' % (ctx.prop, e))
     if errors and code == 0:
         code = 2
-    if only is None:
+    if only is None and not NO_EVIDENCE:
         write_evidence(ctx, insts, len(new_viol), len(kn_viol), errors)
     n_ok = sum(1 for i in insts if i.verdict == 'ok')
     print('%s %s: %d rule instances (%d ok, %d known finding(s), %d new violation(s), %d undecided) in %.2fs -> exit %d'
